@@ -86,6 +86,7 @@ type Flow struct {
 	g     *cfg.CFG
 	c     *astCanon
 	name  string
+	tags  map[ast.Expr]ast.Expr
 	// statistics
 	States int
 	Paths  int
@@ -120,6 +121,24 @@ func (w *World) newFlow(pkgPath, rel string) *Flow {
 }
 
 func (fl *Flow) canon(e ast.Expr) string { return fl.c.expr(e) }
+
+// switchTag: the tag of the tagged switch that e is a case value of (nil otherwise).
+func (fl *Flow) switchTag(e ast.Expr) ast.Expr {
+	if fl.tags == nil {
+		fl.tags = map[ast.Expr]ast.Expr{}
+		ast.Inspect(fl.fd.Body, func(n ast.Node) bool {
+			if sw, ok := n.(*ast.SwitchStmt); ok && sw.Tag != nil {
+				for _, c := range sw.Body.List {
+					for _, v := range c.(*ast.CaseClause).List {
+						fl.tags[v] = sw.Tag
+					}
+				}
+			}
+			return true
+		})
+	}
+	return fl.tags[e]
+}
 
 // callee resolves the called function/method object (nil for dynamic calls through values).
 func (fl *Flow) callee(call *ast.CallExpr) types.Object {
@@ -210,6 +229,14 @@ func (fl *Flow) generic(f facts, n ast.Node) {
 					rs := fl.canon(r)
 					if !mentions(rs, l) {
 						f["A:"+l+"="+rs] = true
+						// what rs is known to equal, l now equals too (a local holding X.Err, assigned on to err)
+						for k := range f {
+							if strings.HasPrefix(k, "A:"+rs+"=") {
+								if v := strings.TrimPrefix(k, "A:"+rs+"="); !mentions(v, l) {
+									f["A:"+l+"="+v] = true
+								}
+							}
+						}
 					}
 				}
 			}
@@ -260,6 +287,18 @@ func (fl *Flow) applyLiteral(f facts, e ast.Expr, truth bool) bool {
 	// equality literal against assignment facts: after x = v, `x == r` has the truth of `v == r`
 	if b, ok := e.(*ast.BinaryExpr); ok && (b.Op == token.EQL || b.Op == token.NEQ) {
 		l, r := fl.canon(b.X), fl.canon(b.Y)
+		// ... and a literal learnt about x is learnt about v as well
+		for k := range f {
+			if strings.HasPrefix(k, "A:"+l+"=") {
+				v := strings.TrimPrefix(k, "A:"+l+"=")
+				vp, vn := "L:"+v+" == "+r+"=T", "L:"+v+" == "+r+"=F"
+				if truth && !f[vn] {
+					f[vp] = true
+				} else if !truth && !f[vp] {
+					f[vn] = true
+				}
+			}
+		}
 		if f["A:"+l+"="+r] && !truth {
 			return false
 		}
@@ -317,6 +356,10 @@ func (fl *Flow) run(rule *flowRule, init facts) {
 						rule.visit(fl, f, n)
 					}
 					cond = e
+					if tag := fl.switchTag(e); tag != nil {
+						// a case value of a tagged switch: the decision is tag == value
+						cond = &ast.BinaryExpr{X: tag, Op: token.EQL, Y: e}
+					}
 					continue
 				}
 			}
